@@ -164,6 +164,9 @@ def gen_text(rng, hostile_p):
     s = "".join(parts)
     if rng.random() < 0.7:
         s = s.strip(" ")
+    if s and hostile_p > 0 and rng.random() < 0.06:
+        # statement texts that separate their parts with an ideographic / no-break space: a text BEGINNING with one
+        s = rng.choice(["\u3000", "\u00a0"]) + s.lstrip(" ")
     return s
 
 
@@ -319,6 +322,22 @@ def cmp_opt(b, r, f, where, out):
         f(b[0], r[0], where, out)
 
 
+READABLE_PAYEE = "[payee the header parser reads back] "
+
+
+def payee_readable(tok, has_code):
+    """a payee the transaction header provably carries although it is outside CleanText: no `;`, no line break, no white space
+    at the end, and in front neither an ASCII blank/tab nor any ASCII punctuation (clear marks, `(`, `=`): a letter, a digit or a
+    non-ASCII character — Unicode white space such as U+3000 included"""
+    x = dec(tok) if isinstance(tok, str) else None
+    if not x or any(c in x for c in ";\r\n"):
+        return False
+    if x[-1].isspace() or ord(x[-1]) in (0x85, 0xa0, 0x1680, 0x2028, 0x2029, 0x202f, 0x205f, 0x3000) or 0x2000 <= ord(x[-1]) <= 0x200a:
+        return False
+    c0 = x[0]
+    return (c0.isalnum() and c0.isascii()) or (ord(c0) > 0x7f and not (0x80 <= ord(c0) <= 0x9f))
+
+
 def cmp_txn(built, reread, prec):
     """differences between the transaction the importer built and the one read back from its printed text"""
     out = []
@@ -327,7 +346,12 @@ def cmp_txn(built, reread, prec):
     names = ["date", "effective date", "state", "code", "payee"]
     for i, n in enumerate(names, 1):
         if built[i] != reread[i]:
-            out.append("%s: built %s, read back %s" % (n, show(built[i]), show(reread[i])))
+            tag = ""
+            if n == "payee" and payee_readable(built[5], bool(built[4])):
+                # outside the Lean class CleanText (which asks for no Unicode white space at either end) but inside what the
+                # header parser demonstrably reads back: `space0` only eats blanks and tabs in front of the payee
+                tag = READABLE_PAYEE
+            out.append("%s%s: built %s, read back %s" % (tag, n, show(built[i]), show(reread[i])))
     if built[7] != reread[7]:
         out.append("comments: built %s, read back %s" % (show(built[7]), show(reread[7])))
     pb, pr = built[6], reread[6]
@@ -454,6 +478,12 @@ def classify(chk, stream, fingerprint, diffs, clean, replay, f15):
     """read-back verdict for one case; `clean` = the Lean class predicate says the case is inside the proved class"""
     if not diffs:
         chk.count("%s:%s:reads-back" % (stream, "clean" if clean else "outside-CleanText"))
+        return
+    if not clean and any(d.startswith(READABLE_PAYEE) for d in diffs):
+        chk.oracle_failures += 1
+        chk.violation("import output does not read back as the transaction built: %s" % [d for d in diffs if d.startswith(READABLE_PAYEE)][0],
+                      dict(replay, differences=diffs, note="the payee is outside the Lean class CleanText (Unicode white space in front), "
+                                                           "so no theorem speaks about it; the header parser reads such a payee back as written"))
         return
     if clean:
         chk.oracle_failures += 1
